@@ -192,7 +192,7 @@ Print Assumptions C11_src_example.
    ([RealCfg c] := exists S ix, [Reach S] /\ [RepI S ix (cS c)]; [Reach] is the hypothesis of C01_never_stale).
    [F_mix g sm] (C07's locality; C02_F_mix_entrywise) is only used because that PAST history may contain partial reverts. *)
 From Leaspy Require Import State.StateModel State.StateNow Compose.StateApi Compose.StateApiProofs Compose.StateApiRunProofs
-                           Compose.ApiOnStateProofs Compose.ComposeExamples State.StateExec.
+                           Compose.ApiOnStateProofs Compose.ComposeExamples State.StateExec Compose.RunProgOnState.
 
 (** The interface every C11 / C13 theorem assumes holds of the real State model, for every well-formed graph. *)
 Theorem C11_state_interface_discharged :
@@ -234,6 +234,21 @@ Theorem C11_logging_transparent_state :
       /\ same_results V (r_read V g) c1 c2 /\ RealCfg V M IX g sm c1 /\ RealCfg V M IX g sm c2.
 Proof. exact logging_transparent_state. Qed.
 Print Assumptions C11_logging_transparent_state.
+
+(** [C11_src_logging_transparent] on the real State model: for the program regenerated from the source, over State objects
+    reachable from [init_store]; no interface hypothesis left. *)
+Theorem C11_src_logging_transparent_state :
+  forall (V M IX : Type) (g : graph V) (sm : sem V M IX), WF g -> F_mix g sm ->
+  forall tracked tape seed_pos (seed : nat) (interp : aname -> nat -> nat -> list (ev V)) (oi oi' : oname -> nat -> list (ev V))
+         (base : nat) (e e' : env) (c c1 : cfg V),
+    e_aflag e FSeedSet = true -> same_algorithm e e' -> e_lflag e' LHasManager = false ->
+    RealCfg V M IX g sm c -> (forall o i, read_only V (oi o i) = true) ->
+    run_prog V (r_read V g) (r_write V g) (r_clone V g) tracked tape seed_pos seed interp oi base e fit_prog c = Some c1 ->
+    exists c2,
+      run_prog V (r_read V g) (r_write V g) (r_clone V g) tracked tape seed_pos seed interp oi' base e' fit_prog c = Some c2
+      /\ same_results V (r_read V g) c1 c2 /\ RealCfg V M IX g sm c1 /\ RealCfg V M IX g sm c2.
+Proof. exact gen_logging_transparent_state. Qed.
+Print Assumptions C11_src_logging_transparent_state.
 
 (** A whole fit (logged or not) on the API model IS one history of State-model operations — without any partial revert —
     on the store of State objects, and the API store keeps representing that store (the clones observers made stay behind
